@@ -8,3 +8,20 @@ property the theorem belongs to; `harness/core.py` parses this file. -/
 #print axioms InToto.C17_pack_succeeds_iff  -- C17
 #print axioms InToto.C17_case_even  -- C17
 #print axioms InToto.C17_case_desttype  -- C17
+#print axioms InToto.genericCond_create  -- C03
+#print axioms InToto.genericCond_delete  -- C03
+#print axioms InToto.genericCond_modify  -- C03
+#print axioms InToto.C03_consuming  -- C03
+#print axioms InToto.C03_disallow  -- C03
+#print axioms InToto.C03_require  -- C03
+#print axioms InToto.C03_match_only_if  -- C03
+#print axioms InToto.C03_match_if  -- C03
+#print axioms InToto.C03_match_missing_link  -- C03
+#print axioms InToto.C03_sequence_pass  -- C03
+#print axioms InToto.C03_sequence_fail  -- C03
+#print axioms InToto.C03_queue_shrinks  -- C03
+#print axioms InToto.C03_all_items  -- C03
+#print axioms InToto.C03_order_independent  -- C03
+#print axioms InToto.C03_order_independent_perm  -- C03
+#print axioms InToto.C03_order_independent_item  -- C03
+#print axioms InToto.hashEq_perm  -- C03
